@@ -270,11 +270,11 @@ theorem mem_drop_append {l evs : List Ev} {e : Ev} {l' : List Ev} (h : l' = l ++
 /-- which polls can emit `err:timeout` -/
 theorem poll_timeout_char (cfg : Cfg) (s : State) (c c' : Nat)
     (h : Ev.result c' .timeout ∈ (stepS cfg s (.poll c)).log.drop s.log.length) :
-    c' = c ∧
+    c' = c ∧ (stepS cfg s (.poll c)).log = s.log ++ [Ev.result c .timeout] ∧
     ((s.fresh.contains c = true ∧ s.free = 0 ∧ cfg.maxWait = some 0) ∨
      (s.fresh.contains c = false ∧ s.assigned.contains c = false ∧ s.queue.contains c = true ∧
         ∃ d, lookup s.deadline c = some d ∧ d ≤ s.now)) := by
-  simp only [stepS] at h
+  simp only [stepS] at h ⊢
   split at h
   · rename_i hf
     unfold pollFresh at h
@@ -290,7 +290,10 @@ theorem poll_timeout_char (cfg : Cfg) (s : State) (c c' : Nat)
       split at h
       · rename_i hw
         simp [emit] at h
-        exact ⟨h, Or.inl ⟨hf, hf0, hw⟩⟩
+        refine ⟨h, ?_, Or.inl ⟨hf, hf0, hw⟩⟩
+        simp only [hf, if_true, pollFresh]
+        have hfree' : ¬ s.free > 0 := by omega
+        simp only [hfree', if_false, hw, emit]
       · simp at h
       · simp at h
   · rename_i hf
@@ -311,7 +314,10 @@ theorem poll_timeout_char (cfg : Cfg) (s : State) (c c' : Nat)
           split at h
           · rename_i hdue
             simp [emit] at h
-            exact ⟨h, Or.inr ⟨hf', ha', hq, d, hd, hdue⟩⟩
+            refine ⟨h, ?_, Or.inr ⟨hf', ha', hq, d, hd, hdue⟩⟩
+            simp only [hf', ha', hq, Bool.false_eq_true, if_false, if_true, pollQueued, hd]
+            have : s.now ≥ d := hdue
+            simp only [this, if_true, emit]
           · simp at h
         · simp at h
       · split at h
